@@ -1,7 +1,7 @@
 //! The case format shared with ocaml/tree.ml and tools/props/treelib.py.
 //!
 //! case  := item (' ' item)*
-//! item  := C,<acts>,<ign>,<exact>,<pos>,<skip>,<sort>
+//! item  := C,<acts>,<ign>,<exact>,<pos>,<skip>,<sort>[,<threads>]
 //!        | B,<id>,<modpath>,<raw>,<display>,<line>,<col>,<opts>,<rk>,<vals>
 //!        | G,<id>,<modpath>,<raw>,<display>,<line>,<col>,<opts>,<rk>,<vals>,<generic>
 //! Strings are percent-encoded (`%XX`; the empty string is `%_`); `-` is "none".
@@ -21,6 +21,8 @@ pub struct Cfg {
     pub sort: char,
     /// `X,<path>`: run this executable (a real crate using the attribute macros) instead of the synthetic registry.
     pub exe: Option<String>,
+    /// Optional 8th field of the C item: run-time thread counts (`--threads a,b` / `Divan::threads`).
+    pub threads: Vec<usize>,
 }
 
 #[derive(Clone, Debug)]
@@ -169,6 +171,7 @@ pub fn parse(line: &str) -> Spec {
                     skip: list(f[5]),
                     sort: f[6].chars().next().unwrap(),
                     exe: None,
+                    threads: f.get(7).map(|s| list(s).iter().map(|n| n.parse().expect("threads")).collect()).unwrap_or_default(),
                 })
             }
             "B" => items.push(Item::B(Bench { meta: meta(&f), args: args(f[8], f[9]) })),
